@@ -276,7 +276,38 @@ def eval_pack(items, scratch, timeout_s, mode="sym", env=None, prefilter=True):
                 status, info = "unknown", v.detail
                 break
         if status == "holds" and not any_val:
+            # every symbolic path raised.  A loud refusal is allowed - but only if the REAL evaluation refuses too: the
+            # exception may be the engine's (a proxy reaching a C function).  The equation is therefore evaluated on
+            # concrete assignments as well; a value there is compared with the XMILE semantics.
             status, info = "refused", "evaluation raised"
+            for cenv in ENVS:
+                fl = lambda l: float(cenv.get(l, {"a": 1.5, "b": 2.25, "c_var": 0.75, "Dd": 3.5}[l]))
+                saved = {l: model.equations[keys[l]] for l in LEAVES}
+                try:
+                    for l in LEAVES:
+                        model.equations[keys[l]] = (lambda v: (lambda t: v))(fl(l))
+                    for k in model.memo:
+                        model.memo[k] = {}
+                    try:
+                        iv = model.memoize(key, TEVAL)
+                    except Exception:
+                        continue
+                    try:
+                        rv = X.ev(eq, X.Ctx(fl, TEVAL, DT, START, STOP, mx))
+                        fi, fr = float(iv), float(rv)
+                    except Exception:
+                        continue
+                    if fi != fi or fr != fr or abs(fr) == float("inf"):
+                        continue
+                    if abs(fi - fr) > 1e-9 * (1 + abs(fr)):
+                        status, info = "violated", dict({k2: v2 for k2, v2 in cenv.items()}, _what="value differs from the XMILE semantics (found on a concrete assignment: the generated code cannot be followed symbolically)")
+                        break
+                    status, info = "holds", "concrete-only"
+                finally:
+                    for l in LEAVES:
+                        model.equations[keys[l]] = saved[l]
+                    for k in model.memo:
+                        model.memo[k] = {}
         out[tag] = (status, info)
     return out
 
